@@ -1,4 +1,27 @@
+import os, sys
+sys.path.insert(0, os.path.dirname(os.path.dirname(os.path.abspath(__file__))))
+import checklib
+
+
+def regen(ctx):
+    """The caches and registries of a serix.API are shared by every Decode/Encode on it: the kind of lock each
+    accessor takes (lock vs rlock) is pinned by regenerated synchronisation skeletons (Props/C02.lean,
+    C02_skeleton_*)."""
+    sf = "serializer/serix/struct_fields.go:structFieldsCache."
+    ts = "serializer/serix/type_settings.go:TypeSettingsRegistry."
+    ir = "serializer/serix/interfaces.go:InterfacesRegistry."
+    vr = "serializer/serix/validators.go:validatorsRegistry."
+    return checklib.regen_skeletons(ctx, [
+        sf + "Get", sf + "Set",
+        ts + "Has", ts + "GetByType", ts + "GetByValue", ts + "ForEach", ts + "RegisterTypeSettings",
+        ir + "Has", ir + "Get", ir + "ForEach", ir + "RegisterInterfaceObjects",
+        vr + "Has", vr + "Get", vr + "RegisterValidator",
+        "serializer/serix/serix.go:API.getStructFields"],
+        extra_methods=["Get", "Set", "Has", "ForEach"])
+
+
 SPEC = {
+    "regen": regen,
     # Props/C02.lean: Deserializer primitives, stream readers, JSON/map decoder (namespace Hive.C02);
     # Props/C02b.lean: serix binary Decode over every schema (namespace Hive.Serix, theorems C02_no_panic / C02_consumed_le)
     "lean_props": ["Hive.Props.C02", "Hive.Props.C02b"],
@@ -12,12 +35,18 @@ SPEC = {
                  "C02_oversized_length_allocates_nothing", "C02_oversized_count_bounded",
                  "C02_omap_total", "C02_typeutils_consumed_le",
                  "C02_stream_no_panic", "C02_stream_consumed_le", "C02_stream_alloc_linear", "C02_stream_iters_linear",
-                 "C02_json_no_panic", "C02_all"],
+                 "C02_json_no_panic", "C02_all",
+                 "C02_skeleton_structFieldsCache_Get", "C02_skeleton_structFieldsCache_Set", "C02_skeleton_API_getStructFields",
+                 "C02_skeleton_TypeSettingsRegistry_GetByType", "C02_skeleton_TypeSettingsRegistry_GetByValue",
+                 "C02_skeleton_TypeSettingsRegistry_RegisterTypeSettings", "C02_skeleton_InterfacesRegistry_Get",
+                 "C02_skeleton_InterfacesRegistry_RegisterInterfaceObjects", "C02_skeleton_validatorsRegistry_Get",
+                 "C02_skeleton_validatorsRegistry_RegisterValidator"],
     "trusted_base": [
         "hand-written models Hive/Model/Deser.lean (serializer.Deserializer primitives as read programs, SerializableOrderedMap.Decode, typeutils), "
         "Hive/Model/Stream.lean (serializer/stream readers over data + chunk list), Hive/Model/JsonDec.lean (map_decode.go dispatch on JSON kinds) "
         "- each tied by line-by-line differential execution (harness/c02) on mutated valid encodings, random bytes and kind-mutated JSON documents",
         "the string syntaxes of strconv.ParseInt/ParseUint/ParseFloat (decimal, inf/nan, underscores; no hex floats), hexutil.Decode/DecodeBig and utf8.ValidString as written down in JsonDec.lean",
+        "harness/tools/extract-sync (shared go/ast extractor): regenerates Hive/Gen/C02_Skel.lean, the synchronisation skeletons of the struct-field cache and the registries of a serix.API, pinned by the C02_skeleton_* decide-obligations",
         "the independent Go oracle (recovered panic, consumed > len, runtime.MemStats.TotalAlloc delta > 64 KiB + 64*len; 256*len for serix.Decode / ordered map) evaluated in a child process with an address-space limit",
         "Go toolchain, compiled Lean driver",
     ],
@@ -32,7 +61,7 @@ SPEC = {
         "alloc = bytes requested with an input-dependent size (make/append/string conversion); fixed-size allocations per loop round are accounted by iters",
     ],
     "manifest": {
-        "text": "For every byte string and every chain of serializer.Deserializer primitives (incl. the callback-driven sequence/object/payload readers), every reader chunking and every stream Read* helper with every prefix width, and every JSON document against every target shape of MapDecode/JSONDecode: the call returns a value or an error and never panics (C02_deser_no_panic, C02_stream_no_panic, C02_json_no_panic; serix binary Decode over every schema: C02_no_panic), reports at most the bytes supplied (C02_deser_consumed_le, C02_stream_consumed_le, C02_consumed_le), allocates at most K*len resp. 5*len + 16 KiB bytes with explicit K = 1 + nesting depth (C02_alloc_linear, C02_stream_alloc_linear; a length field above the remaining input allocates nothing: C02_oversized_length_allocates_nothing) and iterates at most K*(len+1) times when sequence elements have positive size (C02_iters_linear, C02_stream_iters_linear). KNOWN DEFECT of the tree (not repaired, reported as KNOWN-FINDING on every run): a sequence whose elements are ZERO bytes wide iterates, appends and allocates as often as its length prefix says (2^20 element decodes for 4 input bytes) - the iteration theorems carry the hypothesis `pos` precisely because of it (witness C02_zero_size_items_witness); zero-width MAP entries are bounded by the duplicate-key rejection and stay under the oracle. Models re-validated against the working tree on every run: ~27 000 mutated/hostile inputs and kind-mutated JSON documents, outcome class / consumed bytes / iteration counts / values compared line by line with the Lean driver, plus an independent Go oracle measuring panics, consumed bytes and TotalAlloc per call in an address-space-limited child process.",
+        "text": "For every byte string and every chain of serializer.Deserializer primitives (incl. the callback-driven sequence/object/payload readers), every reader chunking and every stream Read* helper with every prefix width, and every JSON document against every target shape of MapDecode/JSONDecode: the call returns a value or an error and never panics (C02_deser_no_panic, C02_stream_no_panic, C02_json_no_panic; serix binary Decode over every schema: C02_no_panic), reports at most the bytes supplied (C02_deser_consumed_le, C02_stream_consumed_le, C02_consumed_le), allocates at most K*len resp. 5*len + 16 KiB bytes with explicit K = 1 + nesting depth (C02_alloc_linear, C02_stream_alloc_linear; a length field above the remaining input allocates nothing: C02_oversized_length_allocates_nothing) and iterates at most K*(len+1) times when sequence elements have positive size (C02_iters_linear, C02_stream_iters_linear). KNOWN DEFECT of the tree (not repaired, reported as KNOWN-FINDING on every run): a sequence whose elements are ZERO bytes wide iterates, appends and allocates as often as its length prefix says (2^20 element decodes for 4 input bytes) - the iteration theorems carry the hypothesis `pos` precisely because of it (witness C02_zero_size_items_witness); zero-width MAP entries are bounded by the duplicate-key rejection and stay under the oracle. Shared state of a serix.API: regenerated synchronisation skeletons pin the lock kind of every accessor of the struct-field cache and the registries (C02_skeleton_*), and 300 fresh APIs per run are used for the first time by 8 goroutines at once in a child process (a runtime abort is the oracle failure `fatal`). Models re-validated against the working tree on every run: ~27 000 mutated/hostile inputs and kind-mutated JSON documents, outcome class / consumed bytes / iteration counts / values compared line by line with the Lean driver, plus an independent Go oracle measuring panics, consumed bytes and TotalAlloc per call in an address-space-limited child process.",
         "note": "Trusted: Lean kernel; the three hand-written models (tie = differential execution); Go library string syntaxes as modelled. static/pos hypotheses are about the calling program (unsupported prefix type, zero-size sequence elements), witnessed by C02_unsupported_prefix_witness and C02_zero_size_items_witness.",
         "technique": "Lean 4 proofs by mutual structural induction over read programs / target types with explicit cost invariants + differential correspondence + Go resource oracle",
     },
